@@ -200,6 +200,14 @@ def check(index, ctx):
         good = len(loops) == 1 and "items" in norm_text(loops[0].iter) and not any(isinstance(x, (ast.Break, ast.Return, ast.Continue)) for x in ast.walk(loops[0])) and \
             any(isinstance(x, ast.Call) and isinstance(x.func, ast.Attribute) and x.func.attr == "_check_key_value_pair" for x in ast.walk(loops[0]))
         ctx.require(good, "R6", "TensorDict._check_all_pairs visits every item", "loop over items() without early exit", "the per-pair check does not visit every (key, value) pair", ap[1].loc())
+    for hf in [f for f in td.module.functions.values() if f.name.startswith("_check")]:
+        for comp in [n for n in ast.walk(hf.node) if isinstance(n, (ast.ListComp, ast.SetComp, ast.GeneratorExp, ast.DictComp))]:
+            filt = [g for g in comp.generators if g.ifs]
+            ctx.require(not filt, "R6", f"{hf.short}: `{norm_text(comp)[:70]}` considers every value", "no filter in the comprehension",
+                        f"the check skips some values (`if {norm_text(filt[0].ifs[0]) if filt else ''}`): a dictionary with such values escapes the shape rule of its type", hf.loc(comp))
+        for loop in [n for n in ast.walk(hf.node) if isinstance(n, ast.For)]:
+            if any(isinstance(x, ast.Continue) for x in ast.walk(loop)):
+                ctx.violated("R6", f"{hf.short}: loop skips some values", "`continue` inside a shape check", hf.loc(loop))
     typed = {"Gradients": ["_check_key_value_pair"], "Jacobians": ["_check_dict", "_check_key_value_pair"], "GradientVectors": ["_check_key_value_pair"], "JacobianMatrices": ["_check_dict", "_check_key_value_pair"]}
     for cname, hooks in typed.items():
         cls = index.find_class(f"{T}.tensor_dict.{cname}")
